@@ -107,3 +107,56 @@ if __name__ == "__main__":
   print(txt)
   for e in errs:
     print("(* ERROR %s: %s *)" % e)
+
+
+# ---------------------------------------------------------------------------------------------
+# C02: distributed_shampoo._transform_grad, translated with the float-mode extension
+# ---------------------------------------------------------------------------------------------
+GRAFT = {"GraftingType.NONE": ("0", "Z"), "GraftingType.SGD": ("1", "Z"),
+         "GraftingType.ADAGRAD": ("2", "Z"), "GraftingType.RMSPROP": ("3", "Z"),
+         "GraftingType.RMSPROP_NORMALIZED": ("4", "Z"), "GraftingType.SQRT_N": ("5", "Z"),
+         "GraftingType.ADAGRAD_NORMALIZED": ("6", "Z")}
+
+TG_PARAMS = [("graft_type", "Z"), ("beta1", "Q"), ("beta2", "Q"), ("lr_t", "Q"),
+             ("weight_decay", "Q"), ("decoupled_weight_decay", "bool"),
+             ("decoupled_learning_rate", "bool"), ("nesterov", "bool"),
+             ("moving_average_for_momentum", "bool"), ("diagonal_epsilon", "Q"),
+             ("start_preconditioning_step", "Z"), ("clip", "Q"), ("eps25", "Q"),
+             ("step", "Z"), ("skip", "bool"), ("param", "vec"), ("grad", "vec"), ("pgrad", "vec"),
+             ("s_diag", "vec"), ("s_dmom", "vec"), ("s_mom", "vec")]
+
+TRANSFORM_GRAD = Fn(
+    "distributed_shampoo._transform_grad", "transform_grad", TG_PARAMS,
+    "(list Q) * ParameterStats",
+    subst={
+        "state.diagonal_statistics.to_float()": ("s_diag", "vec"),
+        "state.diagonal_momentum.to_float()": ("s_dmom", "vec"),
+        "state.momentum.to_float()": ("s_mom", "vec"),
+        "learning_rate": ("lr_t", "Q"),
+        "_skip_preconditioning(param)": ("skip", "bool"),
+        "clip_by_scaled_gradient_norm": ("clip", "Q"),
+        "_EPSILON": ("eps25", "Q"),
+        "preconditioner.preconditioned_grad(precond_grad, _maybe_dequantize_preconditioners(state.preconditioners))":
+            ("pgrad", "vec"),
+    },
+    consts=dict(GRAFT, **{"callable(learning_rate)": ("false", "bool")}),
+    calls={"_quantize_diagonal_statistics": ("", "vec"), "_quantize_momentum": ("", "vec")},
+    records={"ParameterStats": [("diagonal_statistics", "vec"), ("statistics", None),
+                                ("preconditioners", None), ("diagonal_momentum", "vec"),
+                                ("momentum", "vec"), ("avg_grad", None), ("training_metrics", None)]},
+    drop_params=("state",))
+
+
+def generate_c02(repo):
+  """Returns (coq_text, errors) for the C02 translation unit."""
+  from tools import py2v, py2v_float
+  header = ("From Precond Require Import Base.PyLib Base.QMat Base.PyFloat C02.Records.\n"
+            "Open Scope Q_scope.\n")
+  try:
+    src = open(os.path.join(repo, DS)).read()
+    text = py2v_float.translate(src, TRANSFORM_GRAD, ignore_assign=("preconditioner",))
+    return header + "\n" + text + "\n", []
+  except py2v.TranslationError as e:
+    return header, [(TRANSFORM_GRAD.qual, str(e))]
+  except (OSError, SyntaxError) as e:
+    return header, [(TRANSFORM_GRAD.qual, repr(e))]
